@@ -112,6 +112,22 @@ def _ran_clean(detail):
     return int(detail.get("tried") or 0)
 
 
+def _tree_hash(repo):
+    """hash of every Python file of the library package (what the checks read)"""
+    h = hashlib.sha1()
+    base = os.path.join(repo, "audiolazy")
+    for root, dirs, files in sorted(os.walk(base)):
+        dirs.sort()
+        if "__pycache__" in root:
+            continue
+        for fn in sorted(files):
+            if fn.endswith(".py"):
+                p = os.path.join(root, fn)
+                h.update(os.path.relpath(p, repo).encode())
+                h.update(open(p, "rb").read())
+    return h.hexdigest()
+
+
 _SHA = {}
 REFSRC = {}
 
@@ -125,6 +141,29 @@ def _current_sha(c):
         except Exception:
             _SHA[c.name] = None
     return _SHA[c.name]
+
+
+def _oracle_pass(prop, mine, extra, budget=15.0):
+    from concurrent.futures import ThreadPoolExecutor
+    oracles = sorted({c.replay for c in mine if c.replay and not c.replay.startswith("oracles.bounded_adapter") and prop in c.props and prop == c.props[0]})
+
+    def run(o):
+        try:
+            p = subprocess.run([NATIVE_PY, "-W", "ignore", os.path.join(HERE, "pyvc", "replay_driver.py"), "--oracle", o, "--repo", REPO, "--budget", str(budget)],
+                               stdout=subprocess.PIPE, stderr=subprocess.PIPE, text=True, timeout=budget * 4 + 60, env=dict(os.environ, PYTHONDONTWRITEBYTECODE="1"))
+            return o, json.loads(p.stdout.strip().splitlines()[-1]) if p.stdout.strip() else {"error": p.stderr[-1500:]}
+        except Exception as e:
+            return o, {"error": "%s: %s" % (type(e).__name__, e)}
+    with ThreadPoolExecutor(min(8, max(1, len(oracles)))) as ex:
+        results = list(ex.map(run, oracles))
+    for o, d in results:
+        if d.get("error") and not d.get("found"):
+            extra["failures"].append({"name": "oracle-pass/%s/crash" % o, "crash": True, "detail": d.get("error")})
+            continue
+        extra["bounded"].append({"engine": "native oracle pass (list model of the statement run on the real code; pyvc/replay_driver.py)", "what": o,
+                                 "bound": "the oracle's candidate inputs within a %.0f s budget" % budget, "cases": d.get("tried", 0), "failures": 1 if d.get("found") else 0})
+        if d.get("found"):
+            extra["failures"].append({"name": "oracle-pass/%s" % o.replace("oracles.", "").replace(":", "."), "input": d.get("failing_input"), "message": d.get("message")})
 
 
 def run_replay_file(prop, path):
@@ -268,6 +307,12 @@ def check_property(prop, cs, args, seed, lock, write_lock=False):
             except Exception:
                 extra["failures"].append({"name": "%s/extra-check-crash" % c.name, "detail": traceback.format_exc(), "crash": True})
 
+    # always-on oracle pass: every native oracle of this property's contracts (list models written from the statement, run on the
+    # real code with iterators AND containers) - bounded, never counted as proved; it also guards the proved functions against
+    # gaps of the models (input kinds the contracts do not distinguish) and of the engine
+    if not args.only:
+        _oracle_pass(prop, mine, extra)
+
     for u in extra.get("undecided", []):
         structural.append({"contract": u["contract"], "mode": "capture", "error": u["message"], "kind": "unsupported"})
     groups = sorted({ob["group"] for ob in obligations})
@@ -282,6 +327,10 @@ def check_property(prop, cs, args, seed, lock, write_lock=False):
 
     rc = 0
     messages = []
+    tree_now = _tree_hash(REPO)
+    tree_unchanged = lock.get("_tree") is not None and lock.get("_tree") == tree_now
+    if write_lock:
+        lock["_tree"] = tree_now
     # ---- structural problems: exit 2 (or 3 for crashes), never a VIOLATION
     undecided_contracts = {}
     for g in structural:
@@ -370,6 +419,14 @@ def check_property(prop, cs, args, seed, lock, write_lock=False):
             known_seen.append(matched["raw"])
             print("KNOWN-FINDING: property=%s %s" % (prop, matched["what"] or matched["raw"]))
             continue
+        # a proof that fails without a replayed failing input although the library tree is byte-identical to the tree the lock was
+        # written for is the machinery's own problem (contract or engine changed without re-proving, stale lock): exit 3, never
+        # degraded, never reported as a violation of the code
+        if tree_unchanged and not write_lock and not found:
+            messages.append("CHECKER-FAILURE %s: %d obligations fail although the library tree is byte-identical to the tree the lock was written for (e.g. %s): "
+                            "contract / engine / lock out of date" % (cname, len(fl), fl[0]["name"]))
+            rc = max(rc, 3)
+            continue
         statement_level = [f for f in fl if ("/S:" in f["name"] or "S:" in f["name"].split("/")[-1] or "/raises/" in f["name"] or "/ownership/" in f["name"] or "/C02:" in f["name"])]
         helper_failed = [f for f in fl if f not in statement_level]
         # a statement-level obligation proved UNDER a loop invariant / hint that itself no longer holds for this code says nothing:
@@ -420,6 +477,9 @@ def check_property(prop, cs, args, seed, lock, write_lock=False):
                 degraded.append(cname)
             else:
                 rc = max(rc, 2)
+    if tree_unchanged and degraded and not write_lock:
+        messages.append("CHECKER-FAILURE: functions degraded to the bounded search although the library tree is unchanged since the lock: %s" % ", ".join(sorted(set(degraded))))
+        rc = max(rc, 3)
     for f in extra["failures"]:
         if f.get("crash"):
             rc = max(rc, 3)
